@@ -103,7 +103,7 @@ def popLoop (s : MState) (w : Nat) : MState × PopRes :=
       -- last running worker: notify_all, close, return empty
       ({ s with openCount := 0, isOpen := false, pcs := notifyAll (s.pcs.set w .running) }, .empty)
     else
-      ({ s with pcs := s.pcs.set w (.parked false) }, .park)
+      ({ s with openCount := oc, pcs := s.pcs.set w (.parked false) }, .park)
 
 /-- the `for _ in 1..pieces` loop of `split_and_push`: `k` iterations, each `split_off(len - size)`
     from the back; empty pieces are skipped -/
